@@ -235,8 +235,9 @@ class DCAwareRoundRobinPolicy(LoadBalancingPolicy):
         return host.datacenter or self.local_dc
 
     def populate(self, cluster, hosts):
+        # groupby only groups consecutive hosts: merge with what an earlier run of the same DC contributed
         for dc, dc_hosts in groupby(hosts, lambda h: self._dc(h)):
-            self._dc_live_hosts[dc] = tuple(set(dc_hosts))
+            self._dc_live_hosts[dc] = tuple(set(dc_hosts).union(self._dc_live_hosts.get(dc, ())))
 
         if not self.local_dc:
             self._endpoints = [
